@@ -81,7 +81,8 @@ class JTemplate:
         if isinstance(e, J.Not):
             return "not " + JTemplate.src(e.node)
         if isinstance(e, J.Compare):
-            return JTemplate.src(e.expr) + "".join(" %s %s" % (o.op, JTemplate.src(o.expr)) for o in e.ops)
+            sym = {"eq": "==", "ne": "!=", "gt": ">", "gteq": ">=", "lt": "<", "lteq": "<=", "in": "in", "notin": "not in"}
+            return JTemplate.src(e.expr) + "".join(" %s %s" % (sym.get(o.op, o.op), JTemplate.src(o.expr)) for o in e.ops)
         if isinstance(e, (J.And, J.Or)):
             return "(%s %s %s)" % (JTemplate.src(e.left), "and" if isinstance(e, J.And) else "or", JTemplate.src(e.right))
         if isinstance(e, J.CondExpr):
